@@ -234,6 +234,10 @@ func (c *Ctx) Guard(sig string, f func()) (panicked bool) {
 		if r := recover(); r != nil {
 			panicked = true
 			st := string(debug.Stack())
+			if d, isFault := classifyFault(r); isFault {
+				c.Fail(sig+"/memory-fault", "%s\npanic: %v\n%s", d, r, trimStack(st))
+				return
+			}
 			c.Fail(sig+"/panic", "panic: %v\n%s", r, trimStack(st))
 		}
 	}()
